@@ -198,6 +198,25 @@ def run(ctx):
     ctx.ob(rng, 'SUBSCRIBE: a subscription identifier outside 1..268435455 is rejected', 'static|Subscribe|subid-range', loc=vs[0].loc(),
            detail=None if rng else 'no validator compares packet.subscription_identifier with 0 or the variable-byte-integer maximum')
 
+    # ---- added after the mutation sweep: each rejection condition suffices on its own (an `||` that became `&&` keeps both atoms in place)
+    for v in vs:
+        z_, okz = prims.never_ok_after(v, [ZERO])
+        b_, okb = prims.never_ok_after(v, [TOOBIG])
+        if z_ or b_:
+            ctx.ob(z_ and okz and b_ and okb, '%s: identifier 0 alone is rejected, and an identifier above 268435455 alone is rejected' % short(v.path), 'static|Subscribe|subid-each|' + short(v.path), loc=v.loc())
+    for nm_, pat_ in (('empty', r'^str::is_empty\(topic\)$'), ('too-long', r'^\(MAXIMUM_STRING_PROPERTY_LENGTH < str::len\(topic\)\)$'), ('wildcard', r'^str::contains\(topic, ')):
+        ra_ = prims.rets_after(it, [pat_])
+        ctx.ob(ra_ == {'False'}, 'topic validity: a topic that is %s is invalid whatever else holds (%s)' % (nm_, sorted(ra_ or ['test not found'])), 'static|topic-helper|' + nm_, loc=it.loc())
+    ctx.ob(prims.reaches_ret(it, [r'^!str::contains\(topic, '], 'True') is True, 'topic validity: a non-empty topic of legal length without wildcards is valid', 'static|topic-helper|accept', loc=it.loc())
+    tfp = ctx.fn('validate::compute_topic_filter_properties')
+    inval = [i_ for (i_, s_, pe, rve) in tfp.field_writes() if show(pe) == 'properties.is_valid' and show(rve) == 'False']
+    for nm_, pat_ in (('empty', r'^str::is_empty\(topic\)$'), ('too-long', r'^\(MAXIMUM_STRING_PROPERTY_LENGTH < str::len\(topic\)\)$')):
+        es_ = prims.edge_nodes_matching(tfp, [pat_])
+        ctx.ob(bool(es_) and bool(inval) and all(not (set(tfp.reach([e_], avoid=inval)) & set(tfp.exits())) for e_ in es_),
+               'topic filter validity: a filter that is %s is marked invalid before the properties are returned' % nm_, 'static|filter-helper|' + nm_, loc=tfp.loc())
+    ini_ = [show(e_) for (i_, j_, s_) in tfp.stmts() if s_['k'] == 'assign' for e_ in [tfp.rvalue_expr(s_['rv'], i_)] if e_[0] == 'agg' and e_[1].endswith('TopicFilterProperties')]
+    ctx.ob(ini_ == ['TopicFilterProperties{is_valid: True, is_shared: False, has_wildcard: False}'], 'topic filter properties start as valid, not shared, no wildcard (%s)' % ini_, 'static|filter-helper|init', loc=tfp.loc())
+
     # ------------------------------------------------------------ R-C16-4
     ctx.rule('R-C16-4', 'T2 enforcement points', 'send-time validation dominates encoding in the service loop and a failure fails the operation and skips it; stop() validates its DISCONNECT (submit paths: R-C13-4)')
     sq = ctx.fn('ProtocolState::service_queue_aux')
@@ -261,3 +280,8 @@ def run(ctx):
             others = [x for x in SRC.values() if x != src_ and val is not None and re.search(r'packet\.%s\b' % re.escape(x), val)]
             ctx.ob(val is not None and re.search(r'packet\.%s\b' % re.escape(src_), val) is not None and not others,
                    'the limit `%s` the validators enforce is taken from the CONNACK field `%s` (found %s)' % (f_, src_, (val or '?')[:80]), 'limit-source|' + f_, loc=bn_.loc(), rule='R-C16-1')
+    # ---- added after the mutation sweep: the reviewed rejection conditions of every outbound validator
+    from . import shared as _sh2
+    _nv = _sh2.validator_table(ctx, lambda p: 'inbound' not in p, 'R-C16-3', 'an operation is rejected exactly for a listed violation')
+    if ctx.config == 'all':
+        ctx.floor(_nv, 19, 'outbound validators with a reviewed rejection table')
